@@ -374,6 +374,13 @@ def prefix_checks(ctx):
                             rec.violation("C13:history:version-load-after-use-judges-differently", history=list(hist),
                                           text=bad.format("tl:"), alone=want[bad], prefixed=got[bad])
                 got = {t: codes(S, t.format(ns)) for t in HIST_TEMPLATES}
+                if ns:
+                    # a single schema held under a prefix: the empty prefix is not loaded, an unprefixed tag is an error
+                    for text in ("Red", f"{ns}Blue, Red", f"(Label/abc, {ns}Green)"):
+                        if "TAG_NAMESPACE_PREFIX_INVALID" not in [c for c, _ in codes(S, text)]:
+                            rec.violation("C13:history:unprefixed-tag-accepted-by-schema-held-under-a-prefix", history=list(hist),
+                                          prefix=ns, text=text, codes=codes(S, text))
+                            break
             except Exception as e:
                 rec.violation("C13:history:raises:" + type(e).__name__, history=list(hist), error=repr(e)[:200])
                 continue
@@ -382,6 +389,21 @@ def prefix_checks(ctx):
                 rec.violation("C13:history:prefixed-judged-differently-after-history", history=list(hist), prefix=ns,
                               text=bad.format(ns), alone=want[bad], prefixed=got[bad])
             rec.outcome("history-" + ("ok" if got == want else "differs"))
+    # a single schema loaded under a prefix (no unprefixed member): unprefixed tags are errors, prefixed ones judged as alone
+    for version in ("8.3.0", "8.2.0", "score_2.0.0", "testlib_2.0.0"):
+        rec.n("evaluations")
+        try:
+            P, A = load_schema_version("sc:" + version), load_schema_version(version)
+            for t in HIST_TEMPLATES:
+                if codes(P, t.format("sc:")) != codes(A, t.format("")):
+                    rec.violation("C13:single-prefixed-schema:prefixed-judged-differently", version=version, text=t.format("sc:"),
+                                  alone=codes(A, t.format("")), prefixed=codes(P, t.format("sc:")))
+            for text in ("Red", "sc:Blue, Red", "(Label/abc, sc:Green)", "Event"):
+                if "TAG_NAMESPACE_PREFIX_INVALID" not in [c for c, _ in codes(P, text)]:
+                    rec.violation("C13:single-prefixed-schema:unprefixed-tag-accepted", version=version, text=text,
+                                  codes=codes(P, text))
+        except Exception as e:
+            rec.violation("C13:single-prefixed-schema:raises:" + type(e).__name__, version=version, error=repr(e)[:200])
     # an unmerged partnered library is built on the (cached, possibly used) standard schema: same verdicts under a prefix
     for lib in ("testlib_2.0.0", "score_1.1.0"):
         rec.n("evaluations")
